@@ -18,7 +18,7 @@ class Node(object):
             # far-away time zone - the ported functions print and parse plain ASCII figures whatever the locale
             env.update({'LC_ALL': 'ar_EG.UTF-8', 'LANG': 'ar_EG.UTF-8', 'TZ': 'Pacific/Kiritimati'})
         self.p = subprocess.Popen([node, os.path.join(VERIF, 'js', 'harness.js'), REPO], stdin=subprocess.PIPE, env=env,
-                                  stdout=subprocess.PIPE, stderr=subprocess.PIPE, text=True, bufsize=1)
+                                  stdout=subprocess.PIPE, stderr=subprocess.PIPE, text=True, bufsize=1, encoding='utf-8')
 
     def batch(self, reqs):
         """reqs: [(fname, [args])] -> [('ret', value) | ('exc', message)]"""
